@@ -360,6 +360,9 @@ pub fn explore(ctx: &Ctx, obs: &Observer) {
                 Box::new(|| run_deep(ctx, 5, 1, 64, 1, 1, usize::MAX, obs)),
                 Box::new(|| run_deep(ctx, 6, 1, 512, 1, 4, usize::MAX, obs)),
                 Box::new(|| run_deep(ctx, 8, 1, 4096, 1, 64, usize::MAX, obs)),
+                // rows beyond 2^16 only exist from lg_k 17: the first 40000 pairs of every order
+                // (the hashed one reaches the windowed flavors with rows in the upper half)
+                Box::new(|| run_deep(ctx, 17, 0, 1, 1, 2048, 40_000, obs)),
             ];
             jobs.par_iter().for_each(|j| j());
         }
@@ -379,6 +382,7 @@ pub fn explore(ctx: &Ctx, obs: &Observer) {
             run_deep(ctx, 10, 1, 8192, 1, 256, usize::MAX, obs);
             run_deep(ctx, 11, 0, 1, 1, 2048, usize::MAX, obs);
             run_deep(ctx, 12, 0, 1, 1, 8192, usize::MAX, obs);
+            run_deep(ctx, 17, 0, 1, 1, 2048, 400_000, obs);
             // spot checks: lg_k 21 to window offset 8 (one kxp refresh), lg_k 26 through Sparse
             let k21 = 1usize << 21;
             run_deep(ctx, 21, 0, 1, 1, k21 * 2, (k21 * 91) / 8 + 4096, obs);
